@@ -10,7 +10,7 @@ from windpyutils.generic import sorted_combinations, min_combinations_in_interva
 KEYS = ["sum", "max", "len", "const", "sum-then-len"]
 BOUNDS = {
     "quick": {"stream": {"n": "0..6", "scores": "all vectors over 0..3", "keys": KEYS, "yield_key": [True, False],
-                         "elements": ["range(n)", "list of labels", "tuple with a repeated element"]},
+                         "elements": ["range(n)", "list of labels", "tuple with a repeated element", "labels in descending order (n 2..4): input order differs from value order"]},
               "interval": {"n": "0..4", "scores": "all vectors over 0..3", "i_start": "-1..sum+1", "i_end": "i_start-1..sum+2"},
               "random": {"count": 1500, "n": "5..9", "scores": "0..50 with ties and zeros"}},
     "thorough": {"stream": {"n": "0..7", "scores": "all vectors over 0..3", "keys": KEYS, "yield_key": [True, False],
@@ -34,6 +34,8 @@ def cases(tier, seed):
             for key in (KEYS if n <= 5 else KEYS[:2]):
                 yield {"kind": "stream", "scores": list(scores), "key": key, "elements": "range", "yield_key": True}
             yield {"kind": "stream", "scores": list(scores), "key": "sum", "elements": "labels", "yield_key": False}
+            if 2 <= n <= 4:
+                yield {"kind": "stream", "scores": list(scores), "key": "sum", "elements": "unsorted", "yield_key": True}
             if n >= 2 and n <= 5:
                 yield {"kind": "stream", "scores": list(scores), "key": "sum", "elements": "repeated", "yield_key": True}
     for n in range(0, 5 if q else 6):
@@ -72,6 +74,9 @@ def _run_stream(case):
     elif mode == "labels":
         elements = [f"e{i:02d}" for i in range(n)]
         score_of = lambda e: scores[int(e[1:])]
+    elif mode == "unsorted":      # element values in descending order: the input order is NOT the sorted order of the values
+        elements = [f"e{n - 1 - i:02d}" for i in range(n)]
+        score_of = lambda e: scores[n - 1 - int(e[1:])]
     else:   # a tuple whose first two elements are the same object/value; score by value (position 0 and 1 get scores[0])
         elements = ("dup", "dup") + tuple(f"e{i:02d}" for i in range(2, n))
         score_of = lambda e: scores[0] if e == "dup" else scores[int(e[1:])]
